@@ -2,7 +2,11 @@
 (***************************************************************************)
 (* Packet forwarding (modules/apps/packet-forward-middleware) over an      *)
 (* abstract ICS-20 layer, chains A - B - C - D joined in a line by the     *)
-(* transfer channels AB, BC, CD.  Every chain runs the stack               *)
+(* transfer channels AB, BC, CD, plus a SECOND channel BX between B and C  *)
+(* (so that B and C hold vouchers that came over a channel which is        *)
+(* neither the one a forwarded packet arrived on nor the one it leaves     *)
+(* over -- the third refund case of the middleware: such funds are MOVED   *)
+(* between the two escrows, never burned).  Every chain runs the stack     *)
 (*      core -> rate-limit -> packet-forward -> transfer                   *)
 (* (no rate limits are configured in this specification).                  *)
 (*                                                                         *)
@@ -20,9 +24,9 @@
 EXTENDS Integers, Sequences, FiniteSets, TLC
 
 Chains == {"A", "B", "C", "D"}
-Links  == {"AB", "BC", "CD"}
+Links  == {"AB", "BC", "CD", "BX"}
 
-EndsOf(L) == CASE L = "AB" -> <<"A", "B">> [] L = "BC" -> <<"B", "C">> [] L = "CD" -> <<"C", "D">>
+EndsOf(L) == CASE L = "AB" -> <<"A", "B">> [] L = "BC" -> <<"B", "C">> [] L = "CD" -> <<"C", "D">> [] L = "BX" -> <<"B", "C">>
 Other(L, c) == IF EndsOf(L)[1] = c THEN EndsOf(L)[2] ELSE EndsOf(L)[1]
 LinksOf(c)  == { L \in Links : c \in {EndsOf(L)[1], EndsOf(L)[2]} }
 End(L, c)   == L \o "@" \o c
